@@ -160,6 +160,9 @@ def stepOk (wallet : Bool) (torn : List Nat) (op : Op) (res : Res) (prev cur : S
     -- not moved away by an earlier torn archival) succeeds and forgets the wallet
     (if f == .none && !(snapSigners prev w).isEmpty && !torn.contains w then
       (snapSigners cur w).isEmpty && (!wallet || res == .ok) else true) &&
+    -- an archival whose storage call failed before moving anything forgets nothing
+    -- ("forgotten ⇒ archived", both registries)
+    (if f == .failBefore then sameSet (snapSigners cur w) (snapSigners prev w) else true) &&
     -- (the group registry's UnregisterStaleGroups reports nothing: only the wallet registry's
     -- `nil` error says that the wallet was archived)
     (if wallet && res == .ok then
@@ -174,9 +177,15 @@ def stepOk (wallet : Bool) (torn : List Nat) (op : Op) (res : Res) (prev cur : S
     | some n => snapEq cur n
     | none => true
 
+/-- memory refines storage, observed at a restart: every wallet the node knew right before the
+    restart (and whose directory was not moved away by a torn archival) is known after it. -/
+def syncOk (torn : List Nat) (cur next : Snap) : Bool :=
+  [1, 2, 3, 4].all fun w =>
+    torn.contains w || (snapSigners cur w).isEmpty || !(snapSigners next w).isEmpty
+
 def holdsTrace (wallet : Bool) (torn : List Nat) (prev : Snap) : List Op → List (Res × Snap) → Bool
   | op :: (Op.restart :: ops), (r, sn) :: ((r2, sn2) :: tr) =>
-    stepOk wallet torn op r prev sn (some sn2) &&
+    stepOk wallet torn op r prev sn (some sn2) && syncOk (tornStep torn op) sn sn2 &&
       holdsTrace wallet (tornStep torn op) sn (Op.restart :: ops) ((r2, sn2) :: tr)
   | op :: ops, (r, sn) :: tr =>
     stepOk wallet torn op r prev sn none && holdsTrace wallet (tornStep torn op) sn ops tr
